@@ -219,13 +219,34 @@ fn blackbox(kind: &str, k: usize, out: &mut Out) {
             out.viol("bb-two-answers", &format!("{kind} {k}: {extra} bytes follow a complete response"));
         }
         // (the close that follows an early response is the documented outcome, not a missing answer)
-        if class == "abort" && status == 0 && kind != "slow_client" && kind != "early_response" {
+        if class == "abort" && status == 0 && kind != "slow_client" && kind != "early_response" && kind != "upgrade_then_close" {
             out.viol("bb-no-answer", &format!("{kind} {k}: no answer: the client got no byte, only a close"));
         }
         seen.push((class, body as usize));
     }
     if seen.is_empty() {
         out.viol("bb-no-result", &format!("{kind} {k}: no result from the black-box driver"));
+        return;
+    }
+    if kind == "continue_then_close" {
+        let fin: Vec<&(String, usize)> = seen.iter().filter(|x| x.0 != "default 100" && x.0 != "abort" && x.0 != "none" && x.0 != "hang").collect();
+        if fin.last().map(|x| x.0.as_str()) != Some("default 502") {
+            out.viol("bb-interim-only", &format!("continue_then_close {k}: observed {:?}: the request got no final answer (502 expected) after the interim response", seen));
+        }
+        return;
+    }
+    if kind == "upgrade_then_close" {
+        let ok = seen.len() == 2 && seen[0].0 == "default 101" && seen[1].0 == "abort";
+        if !ok {
+            out.viol("bb-upgrade", &format!("upgrade_then_close: observed {:?} (expected the 101, then the end of the tunnel)", seen));
+        }
+        return;
+    }
+    if kind == "two_finals" {
+        let ok = seen.len() == 2 && seen.iter().all(|x| x.0 == "relay" && x.1 == 20);
+        if !ok {
+            out.viol("bb-cross-request", &format!("two_finals: observed {:?}", seen));
+        }
         return;
     }
     if kind == "early_response" {
